@@ -338,6 +338,39 @@ def case_table(mon, xs, ys, kind, qseed):
                 continue
             mon.dev("refuse.outside-table",
                     dict(case, at=q, fn=label, returned=repr(r)))
+    # limits that lie wholly outside the table, on either side and in either
+    # order, for root() and minmax() - also when the ordinate (or the slope)
+    # at the nearer end of the table happens to be zero
+    for y_end in (None, 0.0):
+        ys2 = list(ys)
+        if y_end is not None:
+            ys2[xs.index(sx[-1])] = 0.0
+            ys2[xs.index(sx[0])] = 0.0
+        try:
+            it2 = I(list(xs), ys2)
+        except Exception:
+            continue
+        for (a, b) in ((sx[-1] + 1.0, sx[-1] + 3.0),
+                       (sx[-1] + 3.0, sx[-1] + 0.5),
+                       (sx[0] - 3.0, sx[0] - 1.0),
+                       (sx[0] - 0.5, sx[0] - 100.0)):
+            for label, fn in (("root", it2.root), ("minmax", it2.minmax)):
+                if label == "minmax" and n < 3:
+                    continue
+                mon.evals += 1
+                try:
+                    r = fn(a, b)
+                except ValueError:
+                    mon.ok("refuse.limits-outside-table")
+                    continue
+                except Exception as ex:
+                    mon.dev("refuse.limits-outside-table",
+                            dict(case, y=ys2, fn=label, limits=[a, b],
+                                 raised=repr(ex)))
+                    continue
+                mon.dev("refuse.limits-outside-table",
+                        dict(case, y=ys2, fn=label, limits=[a, b],
+                             returned=repr(r)))
     i, j = rng.sample(range(n), 2)
     for eps in (0.0, 1e-12):
         x2 = list(xs)
